@@ -58,6 +58,19 @@ def run(R, tier, seed, driver_ok):
     reps = 6 if tier == 'quick' else 40
     R.rule = ('Covariance (incl. singular covariance), RCA (unbalanced chunks, chunk label −1, n_components 1..d), LFDA (embedding_type × k × '
               'n_components, classes smaller than k) on generated data. case = (learner, options, data); all non-trivial')
+    # ---- one feature, also a constant one: the (pseudo-)inverse of the variance, 0 for a zero variance — never inf
+    for tag, X1 in [('constant', np.full((6, 1), 3.0)), ('varying', np.arange(6.0)[:, None] * 0.5)]:
+        R.case(('c09-cov1', tag), True, branch='Covariance:one-feature')
+        try:
+            with warnings.catch_warnings():
+                warnings.simplefilter('ignore')
+                L1 = np.asarray(Covariance().fit(X1).components_)
+            v_ = float(np.var(X1[:, 0], ddof=1))
+            want = 0.0 if v_ == 0 else 1.0 / v_
+            if L1.shape != (1, 1) or not np.isfinite(L1).all() or abs(float(L1[0, 0]) ** 2 - want) > 1e-12 * max(want, 1.0):
+                R.violation('Covariance/one-feature', f'Covariance on one {tag} feature learns M = {float(L1[0, 0]) ** 2 if L1.shape == (1, 1) else L1!r}, documented (pseudo-)inverse variance {want}', {'X': X1})
+        except Exception as e:
+            R.violation(f'Covariance/fit-raises-{type(e).__name__}', f'Covariance on one {tag} feature raised {type(e).__name__}: {str(e)[:100]}', {'X': X1})
     R.assumptions = ['eigh/pinvh/eigsh are external kernels; their results are certified a posteriori (Penrose / generalized-eigen residuals)']
     lines, meta = [], []
     for rep in range(reps):
